@@ -95,6 +95,7 @@ impl Prop for C08 {
             let mut plan = if rng.pct(25) { Plan::slice() } else { Plan::draw_transparent(&mut rng, &bytes) };
             if with_hard_faults && !plan.slice && rng.pct(70) {
                 plan.fault = Plan::draw_fault(&mut rng, &bytes);
+                plan.io_once = rng.pct(30);
             }
             steps.push(Step { input: Input::Raw(bytes), plan, cfg: 0 });
         }
